@@ -42,6 +42,9 @@ pub struct Profile {
     pub ddl_rich: bool,
     /// weight of hostile free-text statements (C16)
     pub w_chaos: u32,
+    /// end the history with this many empty transactions, a reopen and a check (crosses the
+    /// 8192-entry aborted-transaction bitmap)
+    pub txn_burst: u32,
     pub guards: Vec<String>,
 }
 
@@ -73,6 +76,7 @@ impl Profile {
             read_burst: 0,
             ddl_rich: false,
             w_chaos: 0,
+            txn_burst: 0,
             guards: default_guards(),
         }
     }
@@ -101,6 +105,7 @@ pub fn default_guards() -> Vec<String> {
         "arithmetic_update_on_indexed_table",    // D24
         "session_open_across_vacuum",            // V1
         "create_index_inside_session",           // X1
+        "mixed_type_index_out_of_table_order",   // X3
         "more_than_18_inserts_per_table",        // D9, D15
         "more_than_3_relations",                 // D15, F3 (tables + indexes)
     ]
@@ -504,7 +509,9 @@ impl Gen {
                 }
                 let rows = self.model.visible_rows(tx, ti);
                 let mut r = self.gen_row(ti);
-                if let (Some(u), true) = (t.uniques.first(), !rows.is_empty()) {
+                let pick_u = if t.uniques.is_empty() { None } else { Some(t.uniques[self.rng.below(t.uniques.len() as u64) as usize].clone()) };
+                let prefer_null = t.cols.iter().any(|c| c.not_null) && self.rng.chance(35);
+                if let (Some(u), true, false) = (pick_u.as_ref(), !rows.is_empty(), prefer_null) {
                     let src = &rows[self.rng.below(rows.len() as u64) as usize].1;
                     for c in &u.cols {
                         r[*c] = src[*c].clone();
@@ -563,6 +570,60 @@ impl Gen {
                         }
                     }
                 }
+            }
+        }
+    }
+
+    /// Re-probe the constraints of a table with statements that must be rejected: a duplicate of
+    /// an existing key for one of its UNIQUE constraints, a NULL for one of its NOT NULL columns.
+    fn probe_constraints(&mut self, ti: usize) {
+        let t = self.model.tables[ti].clone();
+        if *self.inserted.get(&t.name).unwrap_or(&0) + 3 > self.p.max_inserts_per_table {
+            return;
+        }
+        let tx = self.model.begin();
+        let rows = self.model.visible_rows(tx, ti);
+        let mut probes: Vec<Stmt> = vec![];
+        if !rows.is_empty() {
+            for u in &t.uniques {
+                let src = rows[self.rng.below(rows.len() as u64) as usize].1.clone();
+                let mut r = self.gen_row(ti);
+                for c in &u.cols {
+                    r[*c] = src[*c].clone();
+                }
+                if !(self.p.has("collision_with_key_of_rolled_back_insert") && self.key_of_rolled_back_insert(ti, &r)) {
+                    probes.push(Stmt::Insert { table: t.name.clone(), rows: vec![r] });
+                }
+            }
+        }
+        let in_unique: BTreeSet<usize> = t.uniques.iter().flat_map(|u| u.cols.iter().copied()).collect();
+        for (ci, c) in t.cols.iter().enumerate() {
+            if c.not_null && !(self.p.has("null_in_unique_column") && in_unique.contains(&ci)) {
+                let mut r = self.gen_row(ti);
+                r[ci] = Val::Null;
+                probes.push(Stmt::Insert { table: t.name.clone(), rows: vec![r] });
+            }
+        }
+        let mut keep = vec![];
+        for s in probes {
+            let h0 = self.model.hazards.len();
+            let e = self.model.run(tx, &s, false);
+            let hz = self.model.hazards.len() > h0;
+            self.model.hazards.truncate(h0);
+            if matches!(e, Expect::Fail(_)) && !hz {
+                keep.push(s);
+            }
+        }
+        self.model.abort(tx);
+        for s in keep {
+            if self.rng.chance(70) {
+                // an earlier probe may have poisoned this key (rows of a rejected INSERT can stay behind)
+                if let Stmt::Insert { rows, .. } = &s {
+                    if self.p.has("collision_with_key_of_rolled_back_insert") && rows.iter().any(|r| self.key_of_rolled_back_insert(ti, r)) {
+                        continue;
+                    }
+                }
+                self.emit(Event::Auto(s));
             }
         }
     }
@@ -809,6 +870,15 @@ impl Gen {
                 let c = cfg_for_reopen(&mut self.rng);
                 self.emit(Event::Reopen(c));
                 self.emit(Event::Check);
+                // constraints and indexes survive the reopen: re-probe them
+                let probe = self.model.begin();
+                let ts = self.visible_tables(probe);
+                self.model.abort(probe);
+                for ti in ts {
+                    if self.rng.chance(50) {
+                        self.probe_constraints(ti);
+                    }
+                }
             } else if take!(self.p.w_vacuum) {
                 // D14: VACUUM removes rows whose delete was rolled back (or is pending: VACUUM aborts it)
                 if self.p.has("vacuum_after_rolled_back_delete") && (!self.delete_rolled_back.is_empty() || !self.sess_deleted.is_empty()) {
@@ -856,6 +926,20 @@ impl Gen {
                             }
                         }
                     }
+                } else if self.p.ddl_rich && !ts.is_empty() && self.sess.is_empty() && self.rng.chance(25) {
+                    // ALTER ... SET / DROP NOT NULL (autocommit, nobody else open)
+                    let ti = *self.rng.pick(&ts);
+                    let t = self.model.tables[ti].clone();
+                    let c = self.rng.pick(&t.cols).clone();
+                    let action = if self.rng.chance(65) { AlterAction::SetNotNull(c.name.clone()) } else { AlterAction::DropNotNull(c.name.clone()) };
+                    let s = Stmt::Alter { table: t.name.clone(), action };
+                    let tx = self.model.begin();
+                    let exp = self.model.run(tx, &s, false);
+                    self.model.abort(tx);
+                    if matches!(exp, Expect::Ddl) {
+                        self.emit(Event::Auto(s));
+                        self.probe_constraints(ti);
+                    }
                 } else if self.p.ddl_rich && rel_ok && !ts.is_empty() && self.rng.chance(35) {
                     // CREATE UNIQUE INDEX on a column of an existing table
                     let ti = *self.rng.pick(&ts);
@@ -874,7 +958,29 @@ impl Gen {
                             continue;
                         }
                     }
-                    let s = Stmt::CreateIndex { name: format!("ix{}", self.next_val), table: t.name.clone(), cols: vec![c.name.clone()] };
+                    let mut icols = vec![c.name.clone()];
+                    if self.rng.chance(40) {
+                        // multi-column index, columns in any order (not necessarily the table's)
+                        let others: Vec<&ColDef> = t.cols.iter().filter(|x| x.name != c.name).collect();
+                        if !others.is_empty() {
+                            let o = (*self.rng.pick(&others)).clone();
+                            let schema_order = t.col(&c.name).unwrap() < t.col(&o.name).unwrap();
+                            // X3: columns of different types listed out of table order panic on the first duplicate
+                            let free_order = !self.p.has("mixed_type_index_out_of_table_order") || (o.ty == c.ty);
+                            let c_first = if free_order { self.rng.chance(50) } else { schema_order };
+                            if c_first { icols.push(o.name.clone()) } else { icols.insert(0, o.name.clone()) }
+                        }
+                    }
+                    if self.p.has("null_in_unique_column") {
+                        let cis: Vec<usize> = icols.iter().map(|n| t.col(n).unwrap()).collect();
+                        let probe = self.model.begin();
+                        let has_null = self.model.visible_rows(probe, ti).iter().any(|(_, v)| cis.iter().any(|ci| v[*ci].is_null()));
+                        self.model.abort(probe);
+                        if has_null {
+                            continue;
+                        }
+                    }
+                    let s = Stmt::CreateIndex { name: format!("ix{}", self.next_val), table: t.name.clone(), cols: icols };
                     self.next_val += 1;
                     let tx = match in_sess { Some(k) => self.sess[&k], None => self.model.begin() };
                     let exp = self.model.run(tx, &s, false);
@@ -885,7 +991,12 @@ impl Gen {
                         self.relations_made += 1;
                         match in_sess {
                             Some(k) => self.emit(Event::Exec(k, s)),
-                            None => self.emit(Event::Auto(s)),
+                            None => {
+                                self.emit(Event::Auto(s));
+                                if self.sess.is_empty() {
+                                    self.probe_constraints(ti);
+                                }
+                            }
                         }
                     }
                 } else if ts.len() > 1 && self.rng.chance(50) && !self.p.has("drop_table_before_crash") {
@@ -961,6 +1072,12 @@ impl Gen {
             self.end_session(k);
         }
         self.emit(Event::Check);
+        if self.p.txn_burst > 0 {
+            self.emit(Event::TxnBurst(self.p.txn_burst));
+            let c = cfg_for_reopen(&mut self.rng);
+            self.emit(Event::Reopen(c));
+            self.emit(Event::Check);
+        }
         self.events
     }
 }
